@@ -3,8 +3,8 @@
 
   The quiescence search follows every check, capture and promotion without a depth limit; the model
   therefore carries a fuel parameter and reports `none` when it runs out.  Until now "enough fuel exists"
-  was a hypothesis (`Spec.QFinite`, about the UNPRUNED reference tree, which is infinite on a perpetual
-  check).  The engine's own recursion is different: a child node is searched with the window
+  was a hypothesis (finiteness of the PLAIN quiescence tree, `Spec.QplainFinite`, which is infinite on a
+  perpetual check).  The engine's own recursion is different: a child node is searched with the window
   `(-beta, -max alpha standPat)`, so it returns at its stand-pat test unless the move strictly improved the
   mover's static score.  A rank that decreases along exactly those moves bounds the recursion depth.
 -/
